@@ -219,7 +219,8 @@ def functions(tree):
 # second normal form: temporaries and one-expression helpers that the reference tree does not have are inlined
 PURE_METHODS = {'copy', 'astype', 'reshape', 'view', 'unsqueeze', 'squeeze', 'sum', 'all', 'any', 'ge', 'gt', 'le', 'lt', 'nonzero',
                 'flatten', 'tolist', 'item', 'clone', 'detach', 'to', 'format', 'join', 'items', 'keys', 'values', 'dot', 'long', 'float',
-                'repeat', 'repeat_interleave', 'index', 'count', 'get'}
+                'repeat', 'repeat_interleave', 'index', 'count', 'get', 'scatter', 'gather', 'masked_select', 'index_select',
+                'logical_not', 'bool', 'type', 'size', 'dim', 'cpu', 'numpy', 'contiguous', 'expand', 'permute', 't', 'T'}
 PURE_FUNCS = {'len', 'int', 'float', 'bool', 'range', 'list', 'tuple', 'str', 'abs', 'min', 'max', 'sum', 'sorted', 'reversed', 'enumerate',
               'zip', 'isinstance', 'round', 'type',
               # kernels of the packages that only read their arguments
@@ -387,8 +388,11 @@ def _inline_multi(fn, body, i, st, t, uses):
         for n in ast.walk(later):
             for c in ast.iter_child_nodes(n):
                 parent[id(c)] = n
+    scalar_attr = _attr_chain_of_param(fn, st.value) and st.value.attr in ('N', 'L', 'r', 'n', 'p', 'c')
     for u in uses:
         par = parent.get(id(u))
+        if scalar_attr:
+            continue              # a number read from a field: no use can change it
         if isinstance(par, (ast.BinOp, ast.UnaryOp, ast.Compare, ast.BoolOp, ast.IfExp, ast.Tuple, ast.List, ast.Slice, ast.Index if hasattr(ast, 'Index') else ast.Slice)):
             continue
         if isinstance(par, ast.Attribute) and isinstance(par.ctx, ast.Load) and par.value is u:
@@ -428,7 +432,10 @@ def _inline_multi(fn, body, i, st, t, uses):
         else:
             written |= _written_names([later])
     if mentioned & written:
-        return False
+        # a cached attribute read (`r = obs.r`, `N = self.N`) stays valid as long as that attribute is not stored and the object
+        # is not handed to one of the in-place operations of the packages
+        if not (_attr_chain_of_param(fn, st.value) and not _attr_may_change(st.value, rest[:last + 1])):
+            return False
 
     class R(ast.NodeTransformer):
         def visit_Name(self, n):
@@ -485,6 +492,21 @@ def merge_forwarded_results(fn, known_sigs, known_names=frozenset()):
                 names = [e.id for e in st.targets[0].elts]
                 k = len(names)
                 nxt = body[i + 1:i + 1 + k]
+                # (b) the next statement forwards some of the results at once: `X, Y = a, b`
+                nx = body[i + 1] if i + 1 < len(body) else None
+                if isinstance(nx, ast.Assign) and len(nx.targets) == 1 and isinstance(nx.targets[0], ast.Tuple) and isinstance(nx.value, ast.Tuple) \
+                        and len(nx.targets[0].elts) == len(nx.value.elts) and all(isinstance(v, ast.Name) for v in nx.value.elts) \
+                        and all(isinstance(t, (ast.Attribute, ast.Subscript)) for t in nx.targets[0].elts):
+                    fwd = {v.id: t for v, t in zip(nx.value.elts, nx.targets[0].elts)}
+                    if set(fwd) <= set(names) and len(fwd) == len(nx.value.elts) \
+                            and all(x in sg and sg[x][0] not in known_sigs and x not in known_names
+                                    and len(stores.get(x, [])) == 1 and len(loads.get(x, [])) == 1 for x in fwd) \
+                            and [x for x in names if x in fwd] == [v.id for v in nx.value.elts]:
+                        new_t = ast.Tuple(elts=[fwd.get(e.id, e) for e in st.targets[0].elts], ctx=ast.Store())
+                        body[i:i + 2] = [ast.copy_location(ast.Assign(targets=[new_t], value=st.value), st)]
+                        n_merged += 1
+                        i += 1
+                        continue
                 if len(nxt) == k and all(x in sg and sg[x][0] not in known_sigs and x not in known_names
                                          and len(stores.get(x, [])) == 1 and len(loads.get(x, [])) == 1 for x in names) \
                         and all(isinstance(s2, ast.Assign) and len(s2.targets) == 1 and isinstance(s2.value, ast.Name)
@@ -558,6 +580,41 @@ def _merge_row_subscripts(fn, node):
                 return ast.copy_location(ast.Subscript(value=v.value, slice=ast.Tuple(elts=[v.slice, n.slice], ctx=ast.Load()), ctx=n.ctx), n)
             return n
     M().visit(node)
+
+
+INPLACE_METHODS = {'measure', 'postselect', 'rotate_by', 'transform_by', 'set_r', 'set_cs', 'set_c', 'embed', 'take', 'gate', 'compose',
+                   'compile', 'forward', 'backward', 'set_generator', 'set_forward_map', 'set_backward_map', 'append', 'extend'}
+
+
+def _attr_chain_of_param(fn, e):
+    r = e
+    if not isinstance(r, ast.Attribute):
+        return False
+    while isinstance(r, ast.Attribute):
+        r = r.value
+    return isinstance(r, ast.Name) and r.id in _params(fn)
+
+
+def _attr_may_change(e, stmts):
+    """May `root.a.b` change while the statements run?  Yes if root is rebound, if an attribute named like one on the chain is
+    stored anywhere, or if an in-place operation of the packages is called on / with the root object."""
+    chain = []
+    r = e
+    while isinstance(r, ast.Attribute):
+        chain.append(r.attr)
+        r = r.value
+    root = r.id
+    for st in stmts:
+        for n in ast.walk(st):
+            if isinstance(n, ast.Name) and n.id == root and isinstance(n.ctx, (ast.Store, ast.Del)):
+                return True
+            if isinstance(n, ast.Attribute) and isinstance(n.ctx, (ast.Store, ast.Del)) and n.attr in chain:
+                return True
+            if isinstance(n, ast.Call) and isinstance(n.func, ast.Attribute) and n.func.attr in INPLACE_METHODS:
+                names = {m.id for m in ast.walk(n) if isinstance(m, ast.Name)}
+                if root in names:
+                    return True
+    return False
 
 
 def inline_unknown_helpers(tree, rel, tb):
